@@ -1,6 +1,8 @@
 package verifbench
 
 import (
+	"sync/atomic"
+	"bufio"
 	"encoding/binary"
 	"encoding/json"
 	"fmt"
@@ -29,6 +31,8 @@ type pingCase struct {
 	RespCompress bool  `json:"resp_compress"`
 	RawFrames   []bool `json:"raw_frames,omitempty"`
 	Sizes       []int  `json:"sizes"`
+	BufferedHandler bool `json:"buffered_handler,omitempty"` // the handler reads its request through a 4 KiB buffered reader (as grpc-go or a proxy does) instead of exactly the bytes it needs
+	Middleware  bool   `json:"middleware,omitempty"`       // the transcoder sits behind a middleware whose ResponseWriter buffers the body and offers both Flush and Unwrap
 }
 
 func init() {
@@ -56,8 +60,48 @@ func TestC16(t *testing.T) {
 			c.Sizes = append(c.Sizes, rapid.SampledFrom([]int{0, 0, 1, 5, 100, 1000, 5000, 65536}).Draw(t, "size"))
 			c.RawFrames = append(c.RawFrames, rapid.IntRange(0, 3).Draw(t, "raw_frame") == 0)
 		}
+		c.BufferedHandler = rapid.IntRange(0, 2).Draw(t, "buffered_handler") == 0
+		c.Middleware = rapid.IntRange(0, 3).Draw(t, "middleware") == 0
 		judge(t, "C16", c, checkC16(c))
 	})
+}
+
+// pingQuiet: no observable step of client, transcoder output or handler for this long = stalled.
+var pingQuiet = func() time.Duration {
+	if v := os.Getenv("VERIF_PING_QUIET"); v != "" {
+		if d, err := time.ParseDuration(v); err == nil {
+			return d
+		}
+	}
+	return 4 * time.Second
+}()
+
+// bufferingMiddleware is a ResponseWriter as a compression or logging middleware provides it: it
+// buffers the body, pushes it on when Flush is called, and exposes the writer it wraps through Unwrap.
+type bufferingMiddleware struct {
+	inner *Recorder
+	buf   []byte
+}
+
+func (b *bufferingMiddleware) Header() http.Header { return b.inner.Header() }
+func (b *bufferingMiddleware) WriteHeader(code int) { b.inner.WriteHeader(code) }
+func (b *bufferingMiddleware) Write(p []byte) (int, error) {
+	b.buf = append(b.buf, p...)
+	return len(p), nil
+}
+func (b *bufferingMiddleware) Flush() {
+	if len(b.buf) > 0 {
+		_, _ = b.inner.Write(b.buf)
+		b.buf = b.buf[:0]
+	}
+	b.inner.Flush()
+}
+func (b *bufferingMiddleware) Unwrap() http.ResponseWriter { return b.inner }
+func (b *bufferingMiddleware) finish() {
+	if len(b.buf) > 0 {
+		_, _ = b.inner.Write(b.buf)
+		b.buf = b.buf[:0]
+	}
 }
 
 var pingWatchdog = func() time.Duration {
@@ -122,6 +166,9 @@ func runPing(c *pingCase) pingResult {
 	written := 0     // bytes of the response written
 	handlerRead := 0 // complete request messages the handler has read
 	aborted := false
+	var lastProgress int64 // unix nanos of the last observable step of any party
+	progress := func() { atomic.StoreInt64(&lastProgress, time.Now().UnixNano()) }
+	progress()
 	handler := http.HandlerFunc(func(w http.ResponseWriter, r *http.Request) {
 		ct := r.Header.Get("Content-Type")
 		w.Header().Set("Content-Type", ct)
@@ -144,18 +191,23 @@ func runPing(c *pingCase) pingResult {
 			}
 		}
 		var hdr [5]byte
+		var body io.Reader = r.Body
+		if c.BufferedHandler {
+			body = bufio.NewReaderSize(r.Body, 4096)
+		}
 		for k := 0; k < rounds; k++ {
-			if _, err := io.ReadFull(r.Body, hdr[:]); err != nil {
+			if _, err := io.ReadFull(body, hdr[:]); err != nil {
 				break
 			}
 			n := binary.BigEndian.Uint32(hdr[1:])
-			if _, err := io.CopyN(io.Discard, r.Body, int64(n)); err != nil {
+			if _, err := io.CopyN(io.Discard, body, int64(n)); err != nil {
 				break
 			}
 			mu.Lock()
 			handlerRead = k + 1
 			cond.Broadcast()
 			mu.Unlock()
+			progress()
 			p := pingPayload(codec, c.Sizes[k], 1000+k)
 			flags := byte(0)
 			if comp != "" && !c.RawFrames[k] {
@@ -212,12 +264,18 @@ func runPing(c *pingCase) pingResult {
 		mu.Lock()
 		written = total
 		mu.Unlock()
+		progress()
 	}
 	rec.onFlush = func(total int) {
 		mu.Lock()
 		flushed = total
 		cond.Broadcast()
 		mu.Unlock()
+		progress()
+	}
+	var clientWriter http.ResponseWriter = rec
+	if c.Middleware {
+		clientWriter = &bufferingMiddleware{inner: rec}
 	}
 	// client: strict alternation
 	clientDone := make(chan struct{})
@@ -234,6 +292,7 @@ func runPing(c *pingCase) pingResult {
 			if _, err := pw.Write(appendFrame(nil, flags, p)); err != nil {
 				return
 			}
+			progress()
 			// wait for response k to have been received (flushed)
 			mu.Lock()
 			for !aborted {
@@ -260,11 +319,36 @@ func runPing(c *pingCase) pingResult {
 				res.panicked = fmt.Sprint(p)
 			}
 		}()
-		tr.ServeHTTP(rec, req)
+		tr.ServeHTTP(clientWriter, req)
+		if mw, ok := clientWriter.(*bufferingMiddleware); ok {
+			mw.finish() // a middleware writes out what it still holds when the handler it wraps has returned
+		}
 	}()
-	select {
-	case <-finished:
-	case <-time.After(pingWatchdog):
+	// A strict ping-pong in memory either makes a step within microseconds or never again: the
+	// exchange counts as stalled when no party has made an observable step for pingQuiet (three
+	// orders of magnitude above a round), or when it has not finished after pingWatchdog.
+	stalled := false
+	deadline := time.After(pingWatchdog)
+	tick := time.NewTicker(25 * time.Millisecond)
+	defer tick.Stop()
+wait:
+	for {
+		select {
+		case <-finished:
+			break wait
+		case <-deadline:
+			stalled = true
+			break wait
+		case <-tick.C:
+			if time.Since(time.Unix(0, atomic.LoadInt64(&lastProgress))) > pingQuiet {
+				stalled = true
+				break wait
+			}
+		}
+	}
+	switch {
+	case !stalled:
+	default:
 		mu.Lock()
 		rec.mu.Lock()
 		got := countFlushedFrames(rec.Body.Bytes()[:minInt(flushed, rec.Body.Len())])
